@@ -340,7 +340,10 @@ class RealWorld:
                                 "md": md_tok(d["metadata"]) if "metadata" in d else None}}
             if d is not None:
                 return {"meta": md_tok(d)}
-        return {"txt": [[tok(float(t)) for t in line.split()] for line in text.split("\n")[:-1]]}
+        try:
+            return {"txt": [[tok(float(t)) for t in line.split()] for line in text.split("\n")[:-1]]}
+        except ValueError:                                  # neither JSON nor a table of numbers (e.g. a truncated JSON document)
+            return {"unparseable": text[:120]}
 
     def dump_files(self, locs):
         return [[l, [[n, self.dump_file(self.path(l), n)] for n in ALL_FILES]] for l in locs]
